@@ -266,6 +266,54 @@ def no_final_newline_universe(ctx, exe, sc, pairs, env, thorough):
     ctx.oblige("fixed universe: every accepted test input is accepted without its final line break (%d pairs)" % n, bad == 0, "oracle", "%d" % bad)
 
 
+TINY = ["", "\n", "x", ";", "{", "}", "//", "/*", "#", "int a;", "int a;\n\n\n", "void f(){}", "a=b", "#if 1", "return", "if", "else", "case 1:", "\\", "\"", "'",
+        "()", "int f(", "class A", "namespace", "@", "#define A \\", "//\\", "\r", "\r\n\r\n", "\t \t", "x\n#endif", "do", "for(;;)", "switch(x){", "enum{", "a?b:c", "[",
+        "]", "<>", "template<", "operator", "@interface", "#pragma region", "default:", "else if", "while", "goto", "typedef", "struct{", "union", "try", "catch", "using",
+        "new", "delete", "sizeof", "#include", "#include <a>", "?", ":", "::", "->", "...", "=", "==", ",", "*", "&", "~", "!", "0", "0x", "1e", ".", "L", "R\"", "u8"]
+
+
+def tiny_inputs_universe(ctx, exe, sc, env, thorough):
+    """every test configuration x the smallest inputs (one or two tokens, unterminated constructs, empty file) in six languages: a pass that
+    looks for 'the token before / after' finds none.  Fixed universe, a sixth of it per thorough run and a sixtieth per quick run (rotating with the seed)."""
+    import glob
+    cfgs = sorted(glob.glob(os.path.join(common.REPO, "tests", "config", "*", "*.cfg")))
+    paths = []
+    for i, t in enumerate(TINY):
+        for ext, lang in ((".c", "C"), (".cpp", "CPP"), (".cs", "CS"), (".m", "OC"), (".java", "JAVA"), (".d", "D")):
+            paths.append((sc.write(t.encode("latin1"), ext), lang, t))
+    jobs = []
+    for ci, c in enumerate(cfgs):
+        for pi, p in enumerate(paths):
+            if (ci + pi + ctx.seed) % (6 if thorough else 60) == 0:
+                jobs.append((c, p))
+
+    def one(j):
+        c, (p, lang, t) = j
+        try:
+            x = subprocess.run([exe, "-q", "-c", c, "-l", lang, "-f", p], stdout=subprocess.PIPE, stderr=subprocess.PIPE, env=env, timeout=TIMEOUT, cwd=os.path.dirname(c))
+            return x.returncode, x.stdout, x.stderr
+        except subprocess.TimeoutExpired:
+            return "timeout", b"", b""
+    res = common.pmap(one, jobs)
+    bad = 0
+    for (c, (p, lang, t)), (rc, out, err) in zip(jobs, res):
+        ctx.case("tiny:%s:%s:%r" % (os.path.relpath(c, common.REPO), lang, t))
+        why = classify(rc, out, err, True)
+        if why:
+            key = None
+            if rc == "timeout" or (isinstance(rc, int) and rc < 0):
+                sig = signature(exe, c, lang, p, env, rc == "timeout")
+                if sig:
+                    key = dict(sig, kind="hang" if rc == "timeout" else "signal%d" % (-rc))
+                    why += " in %s (pass %s)" % (sig["in"], sig["pass"])
+            if ctx.violation("%s [input %r as %s under %s]" % (why, t, lang, os.path.relpath(c, common.REPO)),
+                             {"input_latin1": t, "lang": lang, "config": os.path.relpath(c, common.REPO), "argv": "uncrustify -q -c <config> -l %s -f <input>" % lang},
+                             key=key, found_input=True):
+                bad += 1
+    ctx.oblige("fixed universe: every test configuration x %d tiny inputs x 6 languages ends with a documented status (%d runs)" % (len(TINY), len(jobs)),
+               bad == 0, "oracle", "%d" % bad)
+
+
 def run(ctx):
     ctx.level = "proof"
     ctx.cov["rule"] = ("one case = one run of the real binary on a mutated corpus input (line/byte truncation, deleted/duplicated line, bracket "
@@ -441,6 +489,7 @@ def run(ctx):
         ctx.oblige("exploration: several files in one invocation end with a documented status (%d invocations)" % mruns, mbad == 0, "oracle", "%d" % mbad)
         width_loop_monitor(ctx, exe, sc, pairs, env, thorough)
         no_final_newline_universe(ctx, exe, sc, unc.test_pairs(), env, thorough)
+        tiny_inputs_universe(ctx, exe, sc, env, thorough)
         ctx.oblige("exploration: every run ends with a documented status, no signal/sanitizer report/timeout, nothing on stdout when refused (%d runs)"
                    % len(res), bad == 0, "oracle", "%d failures" % bad)
         ctx.sample({"mutation": res[0][0][3], "rc": res[0][1], "lang": res[0][0][2]})
